@@ -91,6 +91,23 @@ theorem inBlockStore_iff (g : Graph) (b : Nat) (store : String) (k : Nat) :
         cases h2
         exact h3
 
+/-! ### `create_link` -/
+
+/-- after `create_link(target, name)` the name leads to the target node itself -/
+theorem child?_createLinkIn_self (g : Graph) {p : Nat} (n : String) (t : Nat) (hp : (g.node? p).isSome) :
+    (createLinkIn g p n t).child? p n = some t := by
+  unfold createLinkIn
+  by_cases hh : g.hasChild p n = true
+  · simp only [hh, ↓reduceIte]
+    apply child?_addLink_self
+    · rw [node?_isSome_delLink]; exact hp
+    · exact child?_delLink_self _ _ _
+  · have hf : g.hasChild p n = false := by simpa using hh
+    simp only [hf, Bool.false_eq_true, ↓reduceIte]
+    apply child?_addLink_self _ _ _ hp
+    rw [hasChild_eq] at hf
+    cases hc : g.child? p n <;> simp_all
+
 /-! ### `append` -/
 
 /-- an accepted `append(entity)` is `create_link(item, item.id)` on the (possibly new) list group -/
